@@ -41,6 +41,32 @@ from ..core import Ctx, HorizonHit, JobResult, Violation, digest, explore
 from ..srvrig import Ev, Recorder, RigBackend, Script, quiet_logger, wait_until
 from ..world import FakeSocket, Pipe, World
 
+# texts for the C17 module that hosts this sub-module (PROPERTY / LEVEL are the host's)
+RULE = (
+    "TLS listener: faulty connection F in {garbage instead of a ClientHello (connection kept open / then EOF), immediate EOF, reset before any byte, half a "
+    "ClientHello then EOF / reset, ClientHello cut after 0 / 1 / half / all-but-one bytes then silence (handshake timeout), valid ClientHello then "
+    "{garbage, Finished flight with a corrupted last byte, EOF, reset, silence, flight minus its last byte then silence} instead of the client's second flight, "
+    "complete handshake then raw EOF, complete handshake + one answered request then raw EOF / reset (no close_notify), client pinned to the TLS version "
+    "the server refuses} x TLS 1.2 / 1.3 x 1-2 concurrent healthy TLS clients (connect, handshake, 2 sequential requests, close_notify) + one late healthy "
+    "client x both receive paths of the server (alternating); schedules: every client event (connect, each F byte block / EOF / reset, each request, close_notify) "
+    "is placed by the explorer at a select() boundary (default: when the loop idles, lanes round robin; costed deviations: at a busy boundary, another lane first, "
+    "once 'let the pending timer fire first'); ciphertext is relayed whole at every select; distinct_nontrivial = distinct (scenario, hook log, order of applied "
+    "events) among executions with a non-default choice"
+)
+ASSUMPTIONS = [
+    "TLS listener part: the healthy / faulty TLS clients are CPython ssl.SSLObject peers driven by the harness (OpenSSL executed, not modelled); ciphertext is "
+    "delivered whole at every select() (record fragmentation is enumerated by C08/C10, not here)",
+    "virtual time: everything but ssl_handshake_timeout (5 s) and ssl_shutdown_timeout (1 s) takes microseconds, so 'a healthy client is not blocked behind F' is "
+    "judged as 'each of its steps completes within 0.25 virtual seconds'",
+    "once serve_forever() is seen being cancelled by a client failure the verdict is fixed and the rest of that execution runs under default choices "
+    "(asyncio cancels sibling tasks in address order: not reproducible)",
+    "a TLS client still stalled in its handshake when server.shutdown() is called is not enumerated (shutdown happens after F's connection ended)",
+]
+BOUNDS = {
+    "quick": "TLS listener: 20 faults x 2 TLS versions; 1 healthy client at placement-deviation bound 2 and 2 healthy clients at bound 1",
+    "thorough": "TLS listener: 20 faults x 2 TLS versions; 1 healthy client at bound 3 (bound 2 on the other receive path), 2 healthy clients at bound 2",
+}
+
 F_PORT = 41000
 H_PORT = 42000
 HORIZON = 8000
@@ -231,6 +257,9 @@ class Net:
         self.clients: list[TLSClient] = []
         self.sel: Any = None
         self.steps = 0
+        self.serve_task: Any = None
+        self.shutting_down = False
+        self.dying: float | None = None  # virtual instant at which serve_forever() was seen being torn down by a client's failure
         world.env = self.env  # (Script.__init__ installed its own env: this one calls it)
 
     def kick(self, relay: tlsrig.Relay) -> None:
@@ -259,6 +288,13 @@ class Net:
         about to WAIT, relay steps go on until nothing moves any more - the time between two relay steps is negligible
         against the TLS timers), then the Script places / applies the clients' events."""
         self.sel = sel
+        t = self.serve_task
+        if t is not None and self.dying is None and not self.shutting_down and (t.done() or t.cancelling()):
+            # the server's task group is being cancelled (asyncio cancels the sibling tasks in SET order, i.e. by address):
+            # the verdict is fixed, the rest of the execution is not reproducible - it goes on under default choices that
+            # are neither recorded nor expanded by the explorer
+            self.dying = world.clock
+            self.script.ctx = Ctx()
         busy = timeout == 0
         changed = self.step_all(busy, sel)
         if busy:
@@ -385,7 +421,7 @@ def run(ctx: Ctx, cfg: dict) -> dict:
         backend = RigBackend(world)
         server = AsyncTCPNetworkServer(None, 0, proto, Handler(rec), backend=backend, ssl=tlsrig.lib_context(version, "server"),
                                        ssl_handshake_timeout=HS_TIMEOUT, ssl_shutdown_timeout=SHUTDOWN_TIMEOUT, logger=quiet_logger())
-        task = holder["task"] = loop.create_task(server.serve_forever())
+        task = holder["task"] = net.serve_task = loop.create_task(server.serve_forever())
         out["up"] = await wait_until(server.is_serving)
         lsock = backend.tcp_listener_socks[0]
         # phase 1: the faulty connection and the healthy clients, interleaved
@@ -406,6 +442,7 @@ def run(ctx: Ctx, cfg: dict) -> dict:
         out["alive"] = sorted(str(v) for v in rec.alive.values())
         if task.done() and not task.cancelled():
             out["serve_exc"] = repr(task.exception())[:400]
+        net.shutting_down = True
         await server.shutdown()
         try:
             await task
@@ -438,6 +475,7 @@ def run(ctx: Ctx, cfg: dict) -> dict:
                 "server_sent": 0 if fsock is None else len(fsock.tx.total)}
     out.setdefault("f_closed", out["f"]["closed"])
     out["end_clock"] = round(world.clock, 6)
+    out["dying"] = None if net.dying is None else round(net.dying, 6)
     out["unhandled"] = [u.get("exception") or u.get("message") for u in vloop.collect_unhandled(loop)]
     out["unhandled_msgs"] = [str(u.get("message")) for u in loop.unhandled]
     t = holder.get("task")
@@ -456,6 +494,9 @@ def oracle(cfg: dict, obs: dict) -> tuple[str | None, str]:
     fault = cfg["fault"]
     tags = [f"H{i}" for i in range(1, cfg["healthy"] + 1)]
     ctx_txt = f"events={[a for a, _t, _s in obs.get('applied', [])]} log={log}"
+    if obs.get("dying") is not None:
+        return "server-stopped-by-client-failure", (f"serve_forever() was cancelled / ended at t={obs['dying']} while clients were being served; serve task: "
+                                                    f"{obs.get('serve_exc')}; status={obs['status']}; events never applied: {obs.get('pending')}; {ctx_txt}")
     if obs["status"] != "ok":
         st = obs["status"].split(":")[0]
         if st == "deadlock" and obs.get("serve_exc"):
@@ -589,7 +630,8 @@ def describe(cfg: dict) -> str:
 
 
 def stable(obs: dict) -> dict:
-    """The part of an observation that must be identical in two executions with the same choices."""
+    """The part of an observation that must be identical in two executions with the same choices (an execution in which the
+    server's task group died is only reproducible up to that point: see Net.env)."""
     return {k: v for k, v in obs.items() if k not in ("unhandled", "unhandled_msgs")}
 
 
@@ -602,7 +644,7 @@ def run_job(job: dict) -> JobResult:
         # determinism: the default execution twice
         a, b = stable(run(Ctx(), cfg)), stable(run(Ctx(), cfg))
         res.count("determinism_guard_runs", 2)
-        if a != b:
+        if a != b and a.get("dying") is None and b.get("dying") is None:
             diff = [k for k in a if a[k] != b.get(k)]
             res.internal.append(f"{describe(cfg)}: two default executions differ in {diff}: {[(a[k], b.get(k)) for k in diff][:2]!r}"[:1500])
             continue
